@@ -223,6 +223,8 @@ Inductive js :=
 | WBool (b : bool)                             (* new Boolean(..) *)
 | Arr (l : list js)
 | Obj (m : list (list Z * js))
+| ObjH (m h : list (list Z * js))   (* own enumerable members m; h: what else [[Get]] finds (members of the
+                                       prototype chain, own non-enumerable ones), seen only through a property list *)
 | ToJ (k : Z) (inner : js)   (* object whose only own property is a toJSON method: k=0 returns inner, 1 the key, 2 undefined, 3 typeof this.toJSON; 4: a Date, inherited method returning inner *)
 | Cyc (is_arr : bool).
 
@@ -385,6 +387,11 @@ Fixpoint str_walk (fl : flags) (rep : replacer) (plist : option (list (list Z)))
           | Obj m =>
               let ks := match plist with Some p => p | None => own_keys fl m end in
               seq_obj (map (fun k => (k, str_walk fl rep plist f false false k (js_lookup fl k m))) ks)
+          | ObjH m h =>
+              (* JO: K is the property list as it is, or the own enumerable keys; Str reads each
+                 name with [[Get]], which an own member answers first, then the rest of the chain *)
+              let ks := match plist with Some p => p | None => own_keys fl m end in
+              seq_obj (map (fun k => (k, str_walk fl rep plist f false false k (js_lookup fl k (m ++ h)))) ks)
           | ToJ _ _ => DVal (JObj [])   (* not reached: rewritten to Obj above *)
           end
       end
